@@ -303,7 +303,9 @@ impl Fw {
         }
         for (a, p, _) in &s.table.cache {
             if !peers.contains(p) {
-                return self.viol(w, Focus::C12, "routes-track-peers", "cached-address-points-at-non-peer", format!("n{} keeps cached address {} for {} which is not a peer", i, a, p));
+                // in a learning mesh the cached addresses are the learned ones, which C13 says go when the peer disconnects
+                let prop = if self.focus == Focus::C13 && self.learning { Focus::C13 } else { Focus::C12 };
+                return self.viol(w, prop, "routes-track-peers", "cached-address-points-at-non-peer", format!("n{} keeps cached address {} for {} which is not a peer", i, a, p));
             }
         }
         // claims per peer = last announcement
@@ -502,7 +504,7 @@ impl Fw {
                 _ => adm.push(None),
             }
             // claims (MAC ranges) also route in switch mode; accept the longest match as an alternative
-            if adm == vec![None] {
+            if adm.contains(&None) {
                 for p in &lpm_peers {
                     adm.push(Some(*p));
                 }
@@ -545,7 +547,7 @@ impl Fw {
         }
         let mut sel_nodes: Vec<usize> = selected.iter().filter_map(|a| w.node_by_addr(*a)).collect();
         sel_nodes.sort();
-        if !hk_ran {
+        if !hk_ran && !w.uplink_is_down(i) {
             let mut sent_to: Vec<SocketAddr> = data_sent.iter().map(|id| w.wire[*id].dst).collect();
             sent_to.sort();
             let mut want = selected.clone();
@@ -1011,7 +1013,33 @@ pub fn scenario(w: &mut World, ctx: &RunCtx, focus: Focus, states: &mut Vec<u64>
             _ => {
                 w.count("fwd_membership_changes");
                 let who = w.ch.choose("who", n as u32) as usize;
-                match w.ch.weighted("membership_op", &[3, 2, 2, 1]) {
+                match w.ch.weighted("membership_op", &[3, 2, 2, 1, 1]) {
+                    4 => {
+                        // the uplink of a node goes down for longer than its peer timeout: nothing arrives, every send
+                        // fails (ENETUNREACH) - also the re-dial of each peer it times out meanwhile
+                        if w.is_up(who) && !w.uplink_is_down(who) {
+                            for other in 0..n {
+                                if other != who {
+                                    w.partition(who, other, true);
+                                }
+                            }
+                            w.set_uplink_down(who, true);
+                            fw.lossless = false;
+                            fw.disturbed.push((who, w.now_ms));
+                            let until = w.now_ms + (peer_timeout as u64 + 5 + w.ch.choose("uplink_down_extra_s", 30) as u64) * 1000;
+                            let mut r = Ok(());
+                            while let Some(st) = w.step(until) {
+                                r = fw.after_step(w, &st);
+                                if r.is_err() {
+                                    break;
+                                }
+                            }
+                            r?;
+                            w.set_uplink_down(who, false);
+                            w.heal_all();
+                            w.count("fwd_uplink_outages");
+                        }
+                    }
                     0 => {
                         // restart on the same address with a different claim set
                         if w.is_up(who) {
